@@ -44,3 +44,12 @@ func (c *Controller) ZZWriteLockUnlock() { c.Lock(); c.Unlock() }
 // ZZOnReplicaCall installs f to run at the start of every call into a replica (a network
 // round trip, i.e. a scheduling point); nil removes it.
 func ZZOnReplicaCall(f func()) { zzmodel.OnCall = f }
+
+// ZZReplicaActions: management actions the replica model at pool index i received.
+func ZZReplicaActions(i int) []string {
+	m := zzmodel.Replicas[zzAddrs[i]]
+	if m == nil {
+		return nil
+	}
+	return m.Actions
+}
